@@ -583,3 +583,26 @@ func (lf *LockFacts) orderCycle() []string {
 	}
 	return nil
 }
+
+// HeldThroughout: the lock is held in write mode at `from`, at `to`, and before every instruction that can lie between
+// them — `from` and `to` are in one critical section (a release in between, on any way, is a gap in which another
+// goroutine can invalidate what `from` read).
+func (lf *LockFacts) HeldThroughout(from, to ssa.Instruction, lock string) bool {
+	if from == nil || to == nil || from.Parent() != to.Parent() || from.Parent() == nil {
+		return false
+	}
+	if lf.HeldAt(from)[lock] != 2 || lf.HeldAt(to)[lock] != 2 || !mayPrecede(from, to) {
+		return false
+	}
+	for _, b := range from.Parent().Blocks {
+		for _, x := range b.Instrs {
+			if x == from || x == to {
+				continue
+			}
+			if mayPrecede(from, x) && mayPrecede(x, to) && lf.HeldAt(x)[lock] != 2 {
+				return false
+			}
+		}
+	}
+	return true
+}
